@@ -521,7 +521,22 @@ impl RefLedger {
 		ts_delta_secs: i64,
 	) -> Result<Block, String> {
 		let fees: u64 = txs.iter().map(|t| t.fee()).sum();
-		let (out, kern) = world.coinbase(cb_key, fees);
+		let reward = world.coinbase(cb_key, fees);
+		self.make_block_with_reward(prng, parent, txs, reward, mode, ts_delta_secs)
+	}
+
+	/// As `make_block` with a coinbase (output, kernel) built by the caller
+	/// (e.g. in parallel, or deliberately wrong).
+	pub fn make_block_with_reward(
+		&mut self,
+		prng: &mut Prng,
+		parent: &Hash,
+		txs: &[Transaction],
+		reward: (grin_core::core::Output, TxKernel),
+		mode: PowMode,
+		ts_delta_secs: i64,
+	) -> Result<Block, String> {
+		let (out, kern) = reward;
 		let prev = self.header(parent).clone();
 		let mut b = match mode {
 			PowMode::Skip { difficulty } => {
